@@ -277,7 +277,9 @@ func (s *Session) DidSave(rel, text string) error {
 // ContentChange: Range nil ⇒ full text.
 type ContentChange struct {
 	Range *Range `json:"range,omitempty"`
-	Text  string `json:"text"`
+	// deprecated in LSP 3.x but still sent by many clients: the length of the replaced range in UTF-16 code units
+	RangeLength int    `json:"rangeLength,omitempty"`
+	Text        string `json:"text"`
 }
 
 func (s *Session) DidChange(rel string, changes []ContentChange) error {
